@@ -12,11 +12,19 @@ git diff -- vyxal documents > /tmp/seed_patch.diff
 echo "demo exit with=$W without=$O"
 mkdir -p /verif/seeded/$ID && cp /tmp/seed_patch.diff /verif/seeded/$ID/patch.diff && cp seed/demo.py /verif/seeded/$ID/demo.py && cp seed/notes.md /verif/seeded/$ID/notes.md 2>/dev/null
 cd /verif
+# SEED_VIA_WT=1: point the check at the agent's worktree (VERIF_REPO) instead of patching /repo — same code under test,
+# used while a background run is reading /repo
+if [ "${SEED_VIA_WT:-0}" = 1 ]; then
+  git -C /repo apply --check /verif/seeded/$ID/patch.diff || { echo "PATCH DOES NOT APPLY"; exit 8; }
+  echo "== check $PROP against the change (VERIF_REPO=$WT)"
+  VERIF_REPO=$WT timeout 1500 ./check $PROP > /tmp/seed_check.txt 2>&1; C=$?
+else
 git -C /repo apply /verif/seeded/$ID/patch.diff || { echo "PATCH DOES NOT APPLY"; exit 8; }
 echo "== check $PROP against the change"
 timeout 1500 ./check $PROP > /tmp/seed_check.txt 2>&1; C=$?
+fi
 grep -a "VIOLATION\|^  failing input\|^  broken\|^  correspondence\|quick:" /tmp/seed_check.txt | head -8
-git -C /repo checkout -- .
+[ "${SEED_VIA_WT:-0}" = 1 ] || git -C /repo checkout -- .
 echo "check exit=$C"
 python3 - "$ID" "$PROP" "$W" "$O" "$C" <<'PY'
 import json,sys,re
